@@ -89,14 +89,20 @@ fn gen_one(seed: u64, run: u64, tier: Tier, bk: Bk, op: &str, rep: u64) -> Plan 
         _ => 2,
     };
     let base_tok: std::cell::Cell<Option<usize>> = std::cell::Cell::new(None);
+    let big: std::cell::Cell<Option<usize>> = std::cell::Cell::new(None);
     let mut one = |b: &mut Builder, rng: RngSpec| {
         let rng2 = rng.clone();
         match op {
             "encrypt" | "sign" => {
                 let purpose = if op == "encrypt" { Purp::Local } else { Purp::Public };
                 let key = if op == "encrypt" { fk.local } else { fk.secret };
-                let n = b.rng.usize_below(80);
-                let claims = ClaimsSpec::Raw { bytes: b.bytes(n) };
+                // mostly small; a few messages of several MiB (buffers that are rebuilt or exchanged at sizes a
+                // test never reaches would lose the drawn nonce there)
+                let n = match big.get() {
+                    Some(sz) => sz,
+                    None => b.rng.usize_below(80),
+                };
+                let claims = ClaimsSpec::Raw { bytes: Bytes::Gen { len: n, seed: b.ev_seed() } };
                 let tok = b.tok_slot();
                 let alias = b.rng.bool();
                 b.push(Step::Seal { tok, node: 0, key, purpose, claims, footer: FootSpec::Unit, aad: Bytes::empty(), nonce: None, alias, rng, now_ns: now });
@@ -159,6 +165,16 @@ fn gen_one(seed: u64, run: u64, tier: Tier, bk: Bk, op: &str, rep: u64) -> Plan 
     // fault-free baseline first
     let r = b.healthy_rng();
     one(&mut b, r);
+    // a few messages of several MiB, once per backend (buffers rebuilt or exchanged at sizes no test
+    // reaches must still carry the nonce drawn in that call)
+    if op == "encrypt" && rep == 0 {
+        for sz in [1usize << 20, (4 << 20) + 4096, 16 << 20] {
+            big.set(Some(sz));
+            let r = b.healthy_rng();
+            one(&mut b, r);
+        }
+        big.set(None);
+    }
     // P-384 scalars are drawn by rejection: candidates that are zero or not below the group order are
     // discarded and drawn again (the scripted first draws below are such candidates; the next draw is healthy)
     if bk.family() == 3 && matches!(op, "gen-secret" | "pke") {
